@@ -435,3 +435,71 @@ mod tests {
         }
     }
 }
+
+/// Verification hooks: the real server handler driven with a response sender that records
+/// every batch it is asked to send (a copy of the test module's mock, crate-visible).
+#[cfg(eigerco_lumina_verif)]
+pub(crate) mod verif_shim {
+    use super::*;
+
+    /// `ResponseSender` that records `(channel, responses)` instead of sending.
+    #[derive(Debug, Default)]
+    pub(crate) struct RecordingSender {
+        pub(crate) sent: Vec<(u64, ResponseType)>,
+    }
+
+    impl ResponseSender for RecordingSender {
+        type Channel = u64;
+
+        fn send_response(&mut self, channel: Self::Channel, response: ResponseType) {
+            self.sent.push((channel, response));
+        }
+    }
+
+    /// `HeaderExServerHandler` paired with its `RecordingSender`.
+    pub(crate) struct VerifServer<S>
+    where
+        S: Store + 'static,
+    {
+        handler: HeaderExServerHandler<S, RecordingSender>,
+        sender: RecordingSender,
+    }
+
+    impl<S> VerifServer<S>
+    where
+        S: Store + 'static,
+    {
+        pub(crate) fn new(store: Arc<S>) -> Self {
+            VerifServer {
+                handler: HeaderExServerHandler::new(store),
+                sender: RecordingSender::default(),
+            }
+        }
+
+        pub(crate) fn on_request_received(
+            &mut self,
+            peer: PeerId,
+            request: HeaderRequest,
+            channel: u64,
+        ) {
+            self.handler
+                .on_request_received(peer, channel, request, &mut self.sender, channel);
+        }
+
+        pub(crate) fn poll(&mut self, cx: &mut Context<'_>) -> Poll<()> {
+            self.handler.poll(cx, &mut self.sender)
+        }
+
+        pub(crate) fn on_stop(&mut self) {
+            self.handler.on_stop();
+        }
+
+        pub(crate) fn pending_tasks(&self) -> usize {
+            self.handler.tasks.len()
+        }
+
+        pub(crate) fn take_sent(&mut self) -> Vec<(u64, ResponseType)> {
+            std::mem::take(&mut self.sender.sent)
+        }
+    }
+}
